@@ -9,4 +9,4 @@ mkdir -p "$WORK/baseline"
 cp "$REPO/go.mod" "$WORK/baseline/go.mod"
 cp "$REPO/go.sum" "$WORK/baseline/go.sum"
 export GOFLAGS=-mod=mod GOPROXY=off GOSUMDB=off GOTOOLCHAIN=local
-cd "$REPO" && flock /tmp/redistest.lock go test -modfile="$WORK/baseline/go.mod" -vet=off -count=1 -timeout 25m "$@" ./...
+cd "$REPO" && flock /tmp/redistest.lock go test -p 1 -modfile="$WORK/baseline/go.mod" -vet=off -count=1 -timeout 25m "$@" ./...
